@@ -65,7 +65,9 @@ def gen_case(rng):
         lin.append({'callable': rng.random() < 0.2, 'aces': aces})
     k = rng.choice([0, 1, 1, 2, 2, 3, 5])
     principals = rng.sample(PRINCIPALS, k)
-    return {'lineage': lin, 'principals': principals, 'permission': rng.choice(PERMS)}
+    # resources that are falsy (an empty dict-like folder): truthiness must not matter
+    falsy = [rng.random() < 0.15 for _ in lin]
+    return {'lineage': lin, 'principals': principals, 'permission': rng.choice(PERMS), 'falsy': falsy}
 
 
 def generate(rng, tier, n):
@@ -76,6 +78,9 @@ def generate(rng, tier, n):
 def valid(case):
     try:
         if not case['lineage']:
+            return False
+        if 'falsy' in case and (len(case['falsy']) != len(case['lineage']) or
+                                not all(isinstance(b, bool) for b in case['falsy'])):
             return False
         for loc in case['lineage']:
             if loc is None:
@@ -131,10 +136,16 @@ class _Loc:
     pass
 
 
+class _EmptyFolder(dict):
+    """a container resource without children: falsy, like any empty mapping"""
+    __hash__ = object.__hash__
+
+
 def _build(case):
     locs = []
-    for loc in case['lineage']:
-        o = _Loc()
+    falsy = case.get('falsy') or []
+    for k, loc in enumerate(case['lineage']):
+        o = _EmptyFolder() if (k < len(falsy) and falsy[k]) else _Loc()
         if loc is not None:
             aces = []
             for a in loc['aces']:
@@ -210,6 +221,8 @@ def kinds(case, obs):
     d = obs[0]
     k = ['allowed' if d[0] == 1 and len(d) == 3 else 'denied-by-ace' if len(d) == 3 else 'default-deny' if d[0] == 0 else 'exc']
     k.append('depth%d' % len(case['lineage']))
+    if any(case.get('falsy') or []):
+        k.append('has-falsy-resource')
     k.append('allowed-set-%s' % ('empty' if not obs[1] else 'nonempty'))
     return k
 
